@@ -187,8 +187,11 @@ def check_case(ctx, case):
         if M >= 10 and ns >= 7 and case["vol"] in ("unique_dirichlet", "uniform", "duplicates"):
             ctx.check("different_seed_different_draw", not np.array_equal(r1[1], r3[1]) or not np.array_equal(r1[0], r3[0]), case)
         # lists of Rotation.as_matrix() inputs are documented as allowed
-        r4 = S.resample_orientations([o for o in O], [f for f in F], n_samples=case["n_samples"], seed=case["rs"])
-        ctx.check("list_inputs_equivalent", bool(np.array_equal(r1[0], r4[0]) and np.array_equal(r1[1], r4[1])), case)
+        try:
+            r4 = S.resample_orientations([o for o in O], [f for f in F], n_samples=case["n_samples"], seed=case["rs"])
+            ctx.check("list_inputs_equivalent", bool(np.array_equal(r1[0], r4[0]) and np.array_equal(r1[1], r4[1])), case)
+        except Exception as e:
+            ctx.check("list_inputs_equivalent", False, case, key=f"raises/{type(e).__name__}", exc=str(e)[:150])
         if len(ctx.samples) < 2 and M >= 3:
             ctx.sample(case, first_draw_volumes=np.asarray(r1[1])[0][:5].tolist())
         return
@@ -197,7 +200,11 @@ def check_case(ctx, case):
         O, F = make_stack(rng, 1, M, case["vol"])
         st["unique"] = case["vol"] in ("unique_dirichlet", "unique_sharp", "dominant")
         ctx.case(case, nontrivial=True)
-        oo, ff = S.resample_orientations(O, F, n_samples=ns, seed=case["rs"])
+        try:
+            oo, ff = S.resample_orientations(O, F, n_samples=ns, seed=case["rs"])
+        except Exception as e:
+            ctx.check("law:call_returns", False, case, key=f"raises/{type(e).__name__}", exc=str(e)[:150])
+            return
         f = F[0] / F[0].sum()
         # identify drawn grain by orientation (unique) -> counts
         keyO = {O[0][j].tobytes(): j for j in range(M)}
